@@ -6,6 +6,7 @@ import ActsModel.Driver.Msg
 import ActsModel.Driver.Value
 import ActsModel.Driver.Glob
 import ActsModel.Driver.Tmo
+import ActsModel.Driver.Wf
 open Lean Acts.Driver
 
 def dispatch (req : Lean.Json) : Lean.Json :=
@@ -20,6 +21,7 @@ def dispatch (req : Lean.Json) : Lean.Json :=
   | "c19.run" => tmoRun req
   | "c19.monitor" => tmoMonitor req
   | "c19.parse" => tmoParse req
+  | "c20.tree" => treeCase req
   | "ping" => Lean.Json.mkObj [("pong", Lean.Json.bool true)]
   | c => Lean.Json.mkObj [("error", Lean.Json.str s!"unknown cmd {c}")]
 
